@@ -78,7 +78,7 @@ Definition cur_pos (l : list node) (endp : pos) : pos :=
 Definition pos_after (n : node) (r : list node) (endp : pos) : pos :=
   match n with
   | Leaf _ _ => cur_pos r endp
-  | Block _ _ body be => cur_pos body be
+  | Block _ _ body be _ => cur_pos body be
   end.
 
 Fixpoint first_noncomment (l : list node) : option tok :=
@@ -130,7 +130,7 @@ Definition write_maybe_class_name (o : opts) (st : wstate) (s : str) (p : pos) (
 Definition write_maybe_rpx_dimension (o : opts) (st : wstate) (n : cnum) (u : str) (p : pos) : wstate :=
   if str_eqb u s_rpx then
     let nv := rpx_new_value (n_bits n) (rpx_ratio o) in
-    tok_at st (TDim (mknum (n_sign n) (rpx_new_int nv) nv) s_vw) p (Some (TDim n u))
+    tok_at st (TDim (mknum (n_sign n) (rpx_new_int nv) nv []) s_vw) p (Some (TDim n u))
   else tok_at st (TDim n u) p None.
 
 (* ---------------------------------------------------------------- convert_rpx_in_block *)
@@ -148,7 +148,7 @@ Fixpoint rpx_body (o : opts) (in_calc : bool) (l : list node) (prev : option tok
         let p := or_pos pend (node_pos n) in
         let st' :=
           match n with
-          | Block open _ body _ =>
+          | Block open _ body _ _ =>
               let st1 := tok_at st open p None in
               let st2 := rpx_body o (is_calc_fn open) body None None st1 in
               tok_at st2 (close_of open) p None
@@ -179,7 +179,7 @@ Fixpoint cn_body (o : opts) (l : list node) (lead in_class has_ws : bool) (pend 
         (* (state, in_class, has_whitespace) after this token *)
         let res :=
           match n with
-          | Block open _ body _ =>
+          | Block open _ body _ _ =>
               let st1 := tok_at st0 open p None in
               let st2 := if is_func open
                          then rpx_body o (is_calc_fn open) body None None st1
@@ -209,11 +209,11 @@ Fixpoint qr_loop (o : opts) (l : list node) (in_class has_ws : bool) (pend : opt
         let st0 := if is_curly t || is_ws t then st
                    else if has_ws then tok_sp st (TWs sp) p None else st in
         match n with
-        | Block TCurly _ body _ =>
+        | Block TCurly _ body _ _ =>
             let st1 := tok_at st0 TCurly p None in
             let st2 := rpx_body o false body None None st1 in
             (r, tok_at st2 TCloseCurly p None)
-        | Block open _ body _ =>
+        | Block open _ body _ _ =>
             let st1 := tok_at st0 open p None in
             let st2 := cn_body o body true false false None st1 in
             qr_loop o r false false None (tok_at st2 (close_of open) p None)
@@ -235,7 +235,7 @@ Fixpoint host_scan (l : list node) (endp : pos) (invalid : option pos)
   | n :: r =>
       if is_ws_or_comment (node_tok n) then host_scan r endp invalid
       else match n with
-           | Block TCurly _ _ _ => Some (n, r, invalid)
+           | Block TCurly _ _ _ _ => Some (n, r, invalid)
            | _ => host_scan r endp (keep_first invalid (pos_after n r endp))
            end
   end.
@@ -280,7 +280,7 @@ Definition host_try_parse (o : opts) (l0 : list node) (endp : pos) (st : wstate)
           let start :=
             match n with
             | Leaf (TIdent s) _ => if str_eqb s s_host then Some None else None
-            | Block (TFunc s) _ body be => if str_eqb s s_host then Some (Some (cur_pos body be)) else None
+            | Block (TFunc s) _ body be _ => if str_eqb s s_host then Some (Some (cur_pos body be)) else None
             | _ => None
             end in
           match start with
@@ -288,7 +288,7 @@ Definition host_try_parse (o : opts) (l0 : list node) (endp : pos) (st : wstate)
           | Some inv =>
               match host_scan r2 endp inv with
               | None => HostDone [] st
-              | Some (Block _ pc body _, rest, None) => HostDone rest (host_emit o st pc body)
+              | Some (Block _ pc body _ _, rest, None) => HostDone rest (host_emit o st pc body)
               | Some (_, rest, Some wp) => HostDone rest (warn st W_HOST wp)
               | Some (_, rest, None) => HostDone rest st (* unreachable: host_scan returns a block *)
               end
@@ -311,7 +311,7 @@ Fixpoint skip_to_block_or_semi (l : list node) : list node :=
   match l with
   | [] => []
   | n :: r => match n with
-              | Block TCurly _ _ _ => r
+              | Block TCurly _ _ _ _ => r
               | Leaf TSemi _ => r
               | _ => skip_to_block_or_semi r
               end
@@ -328,7 +328,7 @@ Fixpoint import_conds (o : opts) (l : list node) (closes : list (tok * pos)) (st
   | n :: r =>
       if is_ws_or_comment (node_tok n) then import_conds o r closes st
       else match n with
-           | Block (TFunc x) p body _ =>
+           | Block (TFunc x) p body _ _ =>
                if str_eqb x s_layer then
                  let st1 := tok_at st (TAt x) p (Some (TFunc x)) in
                  let st2 := cn_body o body true false false None st1 in
@@ -343,7 +343,7 @@ Fixpoint import_conds (o : opts) (l : list node) (closes : list (tok * pos)) (st
                  import_conds o r ((TCloseCurly, p) :: closes) st5
                else ImpGo l false closes (warn st W_UNEXPECTED p)
            | Leaf (TIdent _) _ => ImpGo l true closes st
-           | Block TParen _ _ _ => ImpGo l true closes st
+           | Block TParen _ _ _ _ => ImpGo l true closes st
            | Leaf TSemi _ => ImpGo r false closes st
            | _ => ImpErr (warn st W_UNEXPECTED (node_pos n))
            end
@@ -357,8 +357,8 @@ Fixpoint import_media (o : opts) (l : list node) (wpos : pos) (st : wstate)
   | n :: r =>
       if is_ws_or_comment (node_tok n) then import_media o r wpos st
       else match n with
-           | Block TCurly _ _ _ => (None, warn st W_UNEXPECTED wpos)
-           | Block open p body _ =>
+           | Block TCurly _ _ _ _ => (None, warn st W_UNEXPECTED wpos)
+           | Block open p body _ _ =>
                let st1 := tok_at st open p None in
                let st2 := cn_body o body true false false None st1 in
                import_media o r wpos (tok_at st2 (close_of open) p None)
@@ -410,14 +410,14 @@ Fixpoint at_prelude (o : opts) (rec : list node -> pos -> wstate -> wstate) (con
   | n :: r =>
       if is_ws_or_comment (node_tok n) then at_prelude o rec contain mark r st
       else match n with
-           | Block TCurly p body be =>
+           | Block TCurly p body be _ =>
                let seg := segment_since (cur_out st) mark in
                let st1 := set_stack st (w_stack st ++ [seg]) in
                let st2 := tok_at st1 TCurly p None in
                let st3 := if contain then rec body be st2 else rpx_body o false body None None st2 in
                let st4 := tok_at st3 TCloseCurly p None in
                (r, set_stack st4 (removelast (w_stack st4)))
-           | Block open p body _ =>
+           | Block open p body _ _ =>
                let st1 := tok_at st open p None in
                let st2 := cn_body o body true false false None st1 in
                at_prelude o rec contain mark r (tok_at st2 (close_of open) p None)
@@ -466,7 +466,7 @@ Fixpoint rules (fuel : nat) (o : opts) (l : list node) (endp : pos) (at_start : 
 Fixpoint node_size (n : node) : nat :=
   match n with
   | Leaf _ _ => 1
-  | Block _ _ body _ => S (fold_right (fun x a => (node_size x + a)%nat) O body)
+  | Block _ _ body _ _ => S (fold_right (fun x a => (node_size x + a)%nat) O body)
   end.
 Definition nodes_size (l : list node) : nat := fold_right (fun x a => (node_size x + a)%nat) O l.
 
